@@ -298,13 +298,14 @@ func (l *Lasso) queueCause(from int) string {
 			}
 		}
 	}
+	depth := 0 // deepest queue path involved (1 = flat forest of leaf queues)
 	withDims := func(c string) string {
 		var ds []string
 		for d := range dims {
 			ds = append(ds, d)
 		}
 		sort.Strings(ds)
-		return c + ":quota-dims=" + strings.Join(ds, "+")
+		return fmt.Sprintf("%s:quota-dims=%s:queue-depth=%d", c, strings.Join(ds, "+"), depth)
 	}
 	for c := from; c < len(l.Events); c++ {
 		for i := range l.Events[c] {
@@ -330,6 +331,12 @@ func (l *Lasso) queueCause(from int) string {
 			vp, pp := m.QueuePath(vq), m.QueuePath(pq)
 			noteDims(vp)
 			noteDims(pp)
+			if len(vp) > depth {
+				depth = len(vp)
+			}
+			if len(pp) > depth {
+				depth = len(pp)
+			}
 			vi, pi := len(vp)-1, len(pp)-1
 			for vi > 0 && pi > 0 && vp[vi].Name == pp[pi].Name {
 				vi--
